@@ -53,6 +53,7 @@ int main(int argc, char** argv) {
         hb = 44 + 5 * be32(32) + 6 * be32(36) + be32(40) + 8 * be32(28) + be32(24) + be32(20); tlen = 8;
       }
       if (img.size() >= hb + 44) {
+        if (be32(hb + 28) != 0) { fprintf(stderr, "WF violated: Load accepted a file whose governing header declares %lu leap-second records\n", be32(hb + 28)); return 3; }
         const std::size_t timecnt = be32(hb + 32), typecnt = be32(hb + 36);
         const std::size_t tb = hb + 44 + tlen * timecnt, yb = tb + timecnt;
         if (img.size() >= yb + 6 * typecnt && typecnt >= 1 && typecnt <= 256) {
